@@ -301,10 +301,16 @@ def cache_checks(ctx, rng, tle, ti):
     ep = make_orb(tle).tle.epoch
     qs = [ep + np.timedelta64(int(rng.uniform(-86400, 5 * 86400) * 1e6), "us") for _ in range(4)]
     ref = None
-    for order in ([0, 1, 2, 3], [3, 2, 1, 0], [2, 0, 3, 1]):
+    far = [ep + np.timedelta64(int(h * 3600e6), "us") for h in (72.0, -20.0, rng.uniform(24, 120))]
+    for oi, order in enumerate(([0, 1, 2, 3], [3, 2, 1, 0], [2, 0, 3, 1], [0, 1, 2, 3], [1, 3, 0, 2], [3, 0, 2, 1])):
         orb = make_orb(tle)
-        if order[0] == 2:
+        if oi == 2:
             orb.get_equatorial_crossing_time(qs[0].astype(dt.datetime), qs[0].astype(dt.datetime) + dt.timedelta(hours=2))
+        if oi >= 3:
+            # the object's FIRST query is a last-node query far from the epoch (the node it finds must not become the
+            # anchor of the orbit count), the orbit numbers are asked afterwards
+            with common.time_limit(30):
+                orb.get_last_an_time(far[oi - 3])
         ans = {}
         for i in order:
             with common.time_limit(30):
